@@ -25,7 +25,7 @@ def filtered (dflt : α) (p : List α → Bool) (sel : List Nat) (R : List (List
 
 /-- `Counter(key(r[sel]) for r in R)[k]` -/
 def countOf {κ} [DecidableEq κ] (dflt : α) (key : α → κ) (sel : List Nat) (R : List (List α)) (k : List κ) : Nat :=
-  (R.map fun r => (proj dflt sel r).map key).count k
+  ((R.map fun r => (proj dflt sel r).map key).filter fun x => decide (x = k)).length
 
 /-- membership in `{key(r[sel]) for r in R}` -/
 def isDistinctValue {κ} [DecidableEq κ] (dflt : α) (key : α → κ) (sel : List Nat) (R : List (List α))
